@@ -242,18 +242,19 @@ func scenModes(out *scenOut, r *rng, thorough bool) {
 				}
 				wg.Add(1)
 				sem <- struct{}{}
-				go func(o modeOpts, ek string, hist []int) {
+				released := r.chance(1, 4) && !strings.HasPrefix(ek, "startup-") && !strings.HasPrefix(ek, "tty-hangup") && ek != "readerr"
+				go func(o modeOpts, ek string, hist []int, released bool) {
 					defer wg.Done()
 					defer func() { <-sem }()
-					modesOnce(out, o, ek, hist)
-				}(o, ek, hist)
+					modesOnce(out, o, ek, hist, released)
+				}(o, ek, hist, released)
 			}
 		}
 	}
 	wg.Wait()
 }
 
-func modesOnce(out *scenOut, o modeOpts, ek string, hist []int) {
+func modesOnce(out *scenOut, o modeOpts, ek string, hist []int, released bool) {
 	ctl := newRecCtl()
 	buf := &safeBuffer{}
 	spec := o.initial()
@@ -262,6 +263,11 @@ func modesOnce(out *scenOut, o modeOpts, ek string, hist []int) {
 		names = append(names, modeCmds[i].name)
 	}
 	desc := fmt.Sprintf("opts{%s} cmds=[%s] exit=%s", o, strings.Join(names, ","), ek)
+	if released {
+		// Program.ReleaseTerminal() from outside once the program is up; the mode commands follow while
+		// the terminal is released, and the program ends without a RestoreTerminal
+		desc += " released-before-cmds"
+	}
 	var mu sync.Mutex
 	step := 0
 	var mismatch []string
@@ -341,6 +347,19 @@ func modesOnce(out *scenOut, o modeOpts, ek string, hist []int) {
 		if !waitFor(3*time.Second, func() bool { return ctl.log.has("view-exit", "") }) {
 			out.fail(finding{Property: "C05", Class: "harness", What: "program did not come up", Input: desc})
 			return
+		}
+		if released {
+			if err := run.p.ReleaseTerminal(); err != nil {
+				out.fail(finding{Property: "C05", Class: "harness", What: "ReleaseTerminal failed: " + err.Error(), Input: desc})
+			}
+			mu.Lock()
+			spec = modeSpec{} // the release puts the terminal back
+			t := newVterm(80, 24)
+			t.write([]byte(buf.String()))
+			if got := vtModes(t); got != spec.String() {
+				mismatch = append(mismatch, fmt.Sprintf("after ReleaseTerminal: terminal{%s} expected{%s}", got, spec.String()))
+			}
+			mu.Unlock()
 		}
 		for _, i := range hist {
 			run.p.Send(modeCmds[i].msg())
